@@ -218,6 +218,7 @@ fn sequential(rng: &mut Rng, ctx: &mut Ctx) {
     }
     let nw = watchers.len();
     ctx.fingerprint(format!("seq|ops{}|w{}|clr{}", nops / 5, nw.min(4), gens.iter().map(|g| g.iter().filter(|x| x.cleared).count()).sum::<usize>().min(3)), nw > 0);
+    ctx.distinct("sequential_histories", &ops_log.join(" "));
     ctx.sample(json!({"history": ops_log.join(" ")}));
 }
 
@@ -489,6 +490,9 @@ fn concurrent(rng: &mut Rng, ctx: &mut Ctx) {
         }
     }
     ctx.fingerprint(format!("conc|w{}|c{}|s{}|ops{}|n{}", n_writers, n_checkers, n_watchers, ops_per, recs.len() / 3), true);
+    let mut o = recs.clone();
+    o.sort_by_key(|r| r.call);
+    ctx.distinct("concurrent_histories", &o.iter().map(|r| format!("{:?}@{}-{};", r.op, r.call, r.ret)).collect::<String>());
     ctx.sample(json!({"records": recs.len(), "final_a": fin}));
 }
 
